@@ -132,6 +132,11 @@ def check_cfg(ctx, fx, cfg):
     # R10.5 (shared with C07) a restart ends the timers of the incarnation it replaces
     from props import c07 as _c07
     core.shared(ctx, "R10.5", _c07.check_restart_aborts_timers, ctx, fx, cfg, "R10.5")
+    # R10.6 (shared with C04 / C13) "timers never keep the actor alive": once a loop has decided to end (Stop, closed mailbox,
+    # exhausted stream) it takes nothing more out of the mailbox — a loop that drains "what is still queued" first is kept going by
+    # the ticks its own timers keep adding
+    from props.c03 import run_loops
+    run_loops(ctx, fx, "R10.6", {"L9"})
     per, seen = check_timer_protocol(ctx, fx, cfg)
     for f, crs, b, api in per:
         # the submit's result must be looked at (periodic): is_err/is_ok or a match
